@@ -319,37 +319,48 @@ func (c *Ctx) TPL(rule string) []report.Obligation {
 		fn *ssa.Function
 	}
 	rows := map[int64]*row{}
-	for _, b := range sel.Blocks {
-		for _, in := range b.Instrs {
-			st, ok := in.(*ssa.Store)
-			if !ok {
-				continue
-			}
-			fa, ok := st.Addr.(*ssa.FieldAddr)
-			if !ok {
-				continue
-			}
-			ia, ok := fa.X.(*ssa.IndexAddr)
-			if !ok {
-				continue
-			}
-			idx, ok := constInt(ia.Index)
-			if !ok {
-				continue
-			}
-			if rows[idx] == nil {
-				rows[idx] = &row{}
-			}
-			if s, ok := prog.ConstString(st.Val); ok {
-				rows[idx].op = s
-			}
-			switch fv := st.Val.(type) {
-			case *ssa.ChangeType:
-				if f, ok := fv.X.(*ssa.Function); ok {
-					rows[idx].fn = f
+	// the operator table: (constant operator, function) pairs stored into the elements of an array / slice of
+	// struct{string; SubstituteFunc}, in the selecting function itself or wherever the package builds it (init)
+	var tableFns []*ssa.Function
+	tableFns = append(tableFns, sel)
+	for _, f := range c.P.Funcs {
+		if f != sel && strings.HasPrefix(c.P.FuncID(f), "template.") && (f.Name() == "init" || strings.HasPrefix(f.Name(), "init#") || strings.HasPrefix(f.Name(), "init$")) {
+			tableFns = append(tableFns, f)
+		}
+	}
+	for _, tf := range tableFns {
+		for _, b := range tf.Blocks {
+			for _, in := range b.Instrs {
+				st, ok := in.(*ssa.Store)
+				if !ok {
+					continue
 				}
-			case *ssa.Function:
-				rows[idx].fn = fv
+				fa, ok := st.Addr.(*ssa.FieldAddr)
+				if !ok {
+					continue
+				}
+				ia, ok := fa.X.(*ssa.IndexAddr)
+				if !ok {
+					continue
+				}
+				idx, ok := constInt(ia.Index)
+				if !ok {
+					continue
+				}
+				if rows[idx] == nil {
+					rows[idx] = &row{}
+				}
+				if s, ok := prog.ConstString(st.Val); ok {
+					rows[idx].op = s
+				}
+				switch fv := st.Val.(type) {
+				case *ssa.ChangeType:
+					if f, ok := fv.X.(*ssa.Function); ok {
+						rows[idx].fn = f
+					}
+				case *ssa.Function:
+					rows[idx].fn = fv
+				}
 			}
 		}
 	}
